@@ -3,6 +3,7 @@ import LJT.Model.Lossless
 import LJT.Model.Bits
 import LJT.Model.SeqHuff
 import LJT.Model.Arith
+import LJT.Model.ProgAC
 import LJT.Gen.Tables
 /-! An interchange-format decoder written from ITU-T T.81 (not from libjpeg-turbo's decoder):
 marker parser with the syntax checks of Annex B, Huffman table construction of Annex C
@@ -74,113 +75,31 @@ def Store.get (s : Store) (c blk k : Nat) : Int := (s.data.getD c #[]).getD (blk
 def Store.set (s : Store) (c blk k : Nat) (v : Int) : Store :=
   { s with data := s.data.modify c (fun a => a.setIfInBounds (blk * 64 + k) v) }
 
-/-- progressive AC refinement of one block (G.1.2.3, figure G.7): returns new store, EOBRUN, bits -/
-def acRefineBlock (dd : DDerived) (st : Store) (c blk ss se al : Nat) (eobrun : Nat) (bits : List Bool) :
-    Except String (Store × Nat × List Bool) := Id.run do
-  let p1 : Int := (2 : Int) ^ al
-  let m1 : Int := - p1
-  let mut st := st
-  let mut bits := bits
-  let mut k := ss
-  let mut eob := eobrun
-  let nat := Gen.naturalOrder
-  -- refine one already-nonzero coefficient with a correction bit
-  let refine := fun (st : Store) (bits : List Bool) (pos : Nat) => match bits with
-    | [] => (none : Option (Store × List Bool))
-    | b :: rest =>
-      let cur := st.get c blk pos
-      if b then some (st.set c blk pos (if cur ≥ 0 then cur + p1 else cur + m1), rest)
-      else some (st, rest)
-  if eob == 0 then
-    let mut fuel := 70
-    while k ≤ se && fuel > 0 do
-      fuel := fuel - 1
-      match Huff.decode dd bits with
-      | none => return .error "AC refinement: bad Huffman code"
-      | some (_, true, _) => return .error "AC refinement: bit pattern that is no code of the table"
-      | some (sym, false, rest) =>
-        bits := rest
-        let mut r := sym / 16
-        let s := sym % 16
-        let mut newval : Int := 0
-        if s != 0 then
-          if s != 1 then return .error "AC refinement: size must be 1"
-          match bits with
-          | [] => return .error "AC refinement: out of data"
-          | b :: rest2 => bits := rest2; newval := if b then p1 else m1
-        else
-          if r != 15 then
-            eob := 2 ^ r
-            if r != 0 then
-              match getBits r bits with
-              | none => return .error "AC refinement: out of data"
-              | some (x, rest2) => bits := rest2; eob := eob + x
-            break
-        -- advance over already-nonzero coefficients and r still-zero coefficients
-        let mut go := true
-        while go && k ≤ se do
-          let pos := nat.getD k 0
-          if st.get c blk pos != 0 then
-            match refine st bits pos with
-            | none => return .error "AC refinement: out of data"
-            | some (st', rest2) => st := st'; bits := rest2
-          else
-            if r == 0 then go := false
-            else r := r - 1
-          if go then k := k + 1
-        if s != 0 then
-          if k > se then return .error "AC refinement: run beyond band"
-          st := st.set c blk (nat.getD k 0) newval
-        k := k + 1
-  if eob > 0 then
-    -- refine the remaining nonzero coefficients of the band
-    while k ≤ se do
-      let pos := nat.getD k 0
-      if st.get c blk pos != 0 then
-        match refine st bits pos with
-        | none => return .error "AC refinement: out of data"
-        | some (st', rest2) => st := st'; bits := rest2
-      k := k + 1
-    eob := eob - 1
-  return .ok (st, eob, bits)
+/-- the coefficients of the band `ss..se` of a block, in zigzag order -/
+def Store.band (st : Store) (c blk ss se : Nat) : List Int :=
+  (List.range (se - ss + 1)).map (fun j => st.get c blk (Gen.naturalOrder.getD (ss + j) 0))
 
-/-- progressive AC first pass of one block (G.1.2.2) -/
+/-- store the values of a band (zigzag order from `ss`); zero values are not written -/
+def Store.setBand (st : Store) (c blk ss : Nat) (vals : List Int) : Store :=
+  (vals.zipIdx).foldl (fun (s : Store) (p : Int × Nat) =>
+    if p.1 = 0 then s else s.set c blk (Gen.naturalOrder.getD (ss + p.2) 0) p.1) st
+
+/-- progressive AC refinement of one block (G.1.2.3, figure G.7): returns new store, EOBRUN, bits.
+The decoding procedure itself is `ProgAC.refDecBlock` (Model/ProgAC.lean), a pure function of the
+band's current values. -/
+def acRefineBlock (dd : DDerived) (st : Store) (c blk ss se al : Nat) (eobrun : Nat) (bits : List Bool) :
+    Except String (Store × Nat × List Bool) :=
+  match ProgAC.refDecBlock (Huff.decode dd) ((2 : Int) ^ al) (st.band c blk ss se) eobrun bits with
+  | .error e => .error e
+  | .ok (vals, e', rest) => .ok (st.setBand c blk ss vals, e', rest)
+
+/-- progressive AC first pass of one block (G.1.2.2): `ProgAC.firstDecBlock` gives the
+point-transformed values of the band -/
 def acFirstBlock (dd : DDerived) (st : Store) (c blk ss se al : Nat) (eobrun : Nat) (bits : List Bool) :
-    Except String (Store × Nat × List Bool) := Id.run do
-  if eobrun > 0 then return .ok (st, eobrun - 1, bits)
-  let mut st := st
-  let mut bits := bits
-  let mut k := ss
-  let mut eob := 0
-  let mut fuel := 70
-  while k ≤ se && fuel > 0 do
-    fuel := fuel - 1
-    match Huff.decode dd bits with
-    | none => return .error "AC first: bad Huffman code"
-    | some (_, true, _) => return .error "AC first: bit pattern that is no code of the table"
-    | some (sym, false, rest) =>
-      bits := rest
-      let r := sym / 16
-      let s := sym % 16
-      if s != 0 then
-        k := k + r
-        if k > se then return .error "AC first: run beyond band"
-        match getBits s bits with
-        | none => return .error "AC first: out of data"
-        | some (x, rest2) =>
-          bits := rest2
-          st := st.set c blk (Gen.naturalOrder.getD k 0) (extend s x * 2 ^ al)
-        k := k + 1
-      else if r == 15 then k := k + 16
-      else
-        eob := 2 ^ r
-        if r != 0 then
-          match getBits r bits with
-          | none => return .error "AC first: out of data"
-          | some (x, rest2) => bits := rest2; eob := eob + x
-        eob := eob - 1
-        break
-  return .ok (st, eob, bits)
+    Except String (Store × Nat × List Bool) :=
+  match ProgAC.firstDecBlock (Huff.decode dd) (se - ss + 1) eobrun bits with
+  | .error e => .error e
+  | .ok (vals, e', rest) => .ok (st.setBand c blk ss (vals.map (· * 2 ^ al)), e', rest)
 
 structure Tables where
   dc : Array (Option Tbl) := Array.replicate 4 none
